@@ -85,6 +85,9 @@ PROPS.update({
              "objects in all 6x6x3 size-class combinations, plus seeded random histories of 30 operations over 3..6 objects for all four element types; ASan + LSan. "
              "non-trivial = more than 3 operations",
         exhaustive={"quick": False, "thorough": False},
+        # a defective tree can abort a few percent of the histories; the runner gives up (exit 2, no verdict) after 400
+        # restarts per harness process, so the work is cut into more, smaller slices than the default 16
+        slices={"quick": 64, "thorough": 128},
     ),
 })
 
